@@ -578,7 +578,19 @@ func vMutateCfg(rng *rand.Rand, cur cfgapi.ResmgrConfig, m *verifgen.Machine) (c
 			}
 			if rng.Intn(2) == 0 {
 				t, f := true, false
-				switch rng.Intn(3) {
+				switch rng.Intn(5) {
+				case 3: // ... or carries, next to its defect, a valid but different reservation
+					if kind != "bad:available-unparsable" {
+						o.ReservedResources = bcfg.Constraints{policycfg.CPU: policycfg.Amount("cpuset:" + strconv.Itoa(online[len(online)-1]))}
+					}
+				case 4: // ... or a valid but smaller set of available CPUs
+					if kind != "bad:available-unparsable" && len(online) > 2 {
+						ids := []string{}
+						for _, id := range online[:len(online)-1] {
+							ids = append(ids, strconv.Itoa(id))
+						}
+						o.AvailableResources = bcfg.Constraints{policycfg.CPU: policycfg.Amount("cpuset:" + strings.Join(ids, ","))}
+					}
 				case 0:
 					if o.PinCPU != nil && !*o.PinCPU {
 						o.PinCPU = &t
